@@ -31,7 +31,7 @@ PKG = "optimum/quanto"
 
 # file (prefix) -> ordered list of owning checks.  The first ones are the most likely to notice.
 OWNERS = [
-    ("calibrate.py", ["C12", "C13", "C16", "C08"]),
+    ("calibrate.py", ["C12", "C13", "C03", "C16", "C08"]),
     ("quantize.py", ["C08", "C09", "C10", "C13"]),
     ("serialization.py", ["C10"]),
     ("nn/qmodule.py", ["C08", "C09", "C10", "C12", "C13", "C11", "C14"]),
